@@ -3907,15 +3907,15 @@ func transformFunction(token Token) (pr.SDimensions, error) {
 		length := getLength(args[0], true, true)
 		switch name {
 		case "rotate":
-			if notNone && angle != 0 {
+			if notNone {
 				return pr.SDimensions{String: "rotate", Dimensions: []pr.Dimension{pr.FToD(pr.Fl(angle))}}, nil
 			}
 		case "skewx", "skew":
-			if notNone && angle != 0 {
+			if notNone {
 				return pr.SDimensions{String: "skew", Dimensions: []pr.Dimension{pr.FToD(pr.Fl(angle)), pr.ZeroPixels}}, nil
 			}
 		case "skewy":
-			if notNone && angle != 0 {
+			if notNone {
 				return pr.SDimensions{String: "skew", Dimensions: []pr.Dimension{pr.ZeroPixels, pr.FToD(pr.Fl(angle))}}, nil
 			}
 		case "translatex", "translate":
@@ -3940,6 +3940,13 @@ func transformFunction(token Token) (pr.SDimensions, error) {
 			}
 		}
 	case 2:
+		if name == "skew" {
+			angleX, okX := getAngle(args[0])
+			angleY, okY := getAngle(args[1])
+			if okX && okY {
+				return pr.SDimensions{String: "skew", Dimensions: []pr.Dimension{pr.FToD(pr.Fl(angleX)), pr.FToD(pr.Fl(angleY))}}, nil
+			}
+		}
 		if name == "scale" && isAllNumber {
 			return pr.SDimensions{String: name, Dimensions: values}, nil
 		}
